@@ -2,33 +2,48 @@
 format cannot represent is refused.
 
 Specs (spec/textio/): XyeDefs.tla (file = comment lines + one line of three number cells per row;
-decision table Decide / declarative Writable; writer Save; reader Load), Xye.tla (state machine
-choose -> save -> load; TLC: the table is total and exclusive, nothing is written for unwritable data,
-Load(Save(d)) = d for every header over {a, #, LF, SP, digit} up to MaxHeader and 1..MaxRows rows;
-negative controls: only the first header line commented, data without variances written),
-Trace_Xye.tla (judge of recorded executions).
+decision table Decide / declarative Writable; writer Save; reader Load; ExpectedMeta = names and
+units of a loaded DataArray come from the request alone), Xye.tla (state machine choose -> save ->
+load; TLC: the table is total and exclusive for 0..3 dimensions and 1..2 points, nothing is written for
+unwritable data, Load(Save(d)) = d for every header over {a, #, LF, SP, digit, CR} up to MaxHeader and
+1..MaxRows rows; negative controls: only the first header line commented, data without variances
+written, CR kept), XyeStore.tla (history: data sets saved to / loaded from several paths in any
+order, a load returns what the LAST save to that path wrote with the names and units of THIS request;
+negative controls: tables cached per path, saves appending to an existing file), Trace_Xye.tla (judge
+of recorded executions; keeps the content of every path as XyeStore does).
 
 Conformance:
-  M1  every configuration of the model's decision table (variances, ndim 0/1/2, masks, every subset of
-      5 coordinates with/without the dimension-coordinate, requested coordinate, bin edges) and every
-      header of the model is replayed through the real save_xye / load_xye; number cells are
+  M1  every configuration of the model's decision table (variances, ndim 0..3, masks, every subset of
+      5 coordinates with/without the dimension-coordinate, requested coordinate, bin edges, 1..2 points)
+      and every header of the model is replayed through the real save_xye / load_xye; number cells are
       value-ids: distinguished doubles (subnormal min, max, +-min normal, 1/3, pi, 1e+-300, integers,
       -0.0, ...), pairwise distinct, mapped back by exact bit equality for X and Y and by <= 4 ulp of
       the supplied variance for E^2 (file) and the loaded variances.
-  M2  random finite bit patterns, 1 .. 10^4 rows, random printable-ASCII headers with newlines, '#'
-      and lines that look like table rows, path / str / text-file / StringIO targets.
+  M2  random finite bit patterns and uniformly tiny / huge / nearly-integer / integer / adjacent /
+      equal-exponent columns, 1 .. 10^4 rows, random ASCII headers with newlines, '#', TABs and lines
+      that look like table rows; path / str / text-file / StringIO targets with several file names;
+      the DataArray is supplied contiguous, as a column or row of 2-D data, as a stepped or offset
+      slice, or as an item of a Dataset, coordinates inserted in any order, with several dimension /
+      coordinate names and units; load_xye is asked for several dimension / coordinate names and units
+      and reads from a path, a str, an open file or a StringIO.
+  M3  history: later loads of paths that were saved to earlier, the same DataArray saved twice, the
+      scenarios of XyeStore, and at the end a sample of all cases replayed in another order.
 The text is split into lines and mapped to the model's symbols by the harness; structure, header
-commenting, chosen coordinate, readability by the specified reader and equality of the loaded data
-are decided by TLC (Trace_Xye).  Any exception of save_xye counts as refusal (the property).
+commenting, chosen coordinate, readability by the specified reader, equality of the loaded data,
+names / units of the loaded DataArray and the content of every path over time are decided by TLC
+(Trace_Xye).  Any exception of save_xye counts as refusal (the property).
 """
 
 from __future__ import annotations
 
+import bisect
 import io
 import itertools
 import math
 import os
 import struct
+import threading
+import time
 
 import numpy as np
 import scipp as sc
@@ -37,24 +52,42 @@ from ..core import MachineryError
 from ..refmap import ulp_diff
 from ..tlc import require_ok, write_ndjson
 
-RULE = ('one event = one save_xye call (+ load_xye of the result); non-trivial = a file was written and '
-        'loaded with >= 1 row and the header is non-empty or the data contains extreme / random-bit doubles, '
-        'or the configuration is refused for a reason of the table; distinct by configuration + header + data seed')
+RULE = ('one event = one save_xye call (+ load_xye of the result) or one later load_xye of a path; non-trivial = a '
+        'file was written and loaded with >= 1 row and the header is non-empty or the data contains extreme / '
+        'random-bit doubles, or the configuration is refused for a reason of the table, or a later load; distinct by '
+        'configuration + header + data seed')
 
 CA, CHASH, CLF, CSP, CDIG, CCR = 1, 2, 3, 4, 5, 6
 UNKNOWN = 8000000
 _SYM = {'#': CHASH, '\n': CLF, ' ': CSP, '\r': CCR}
-COORD_NAMES = {0: 'x', 1: 'c1', 2: 'c2', 3: 'c3', 4: 'c4'}    # 0 = dimension-coordinate (dim is 'x')
+NPATHS = 8      # path slots 1..8 (Trace_Xye keeps 16)
 
 DISTINGUISHED = [5e-324, -5e-324, 1.7976931348623157e308, -1.7976931348623157e308, 2.2250738585072014e-308,
                  -2.2250738585072014e-308, 1 / 3, math.pi, 1e300, 1e-300, -1e300, 1.0, -1.0, 2.0, 1e15, 123456789.0,
                  -0.0, 0.0, 0.1, -2.5, 1e22, 1e-7, 6.02214076e23, 4.9406564584124654e-322, 2.2250738585072009e-308]
 DIST_VARIANCES = [5e-324, 1.7976931348623157e308, 2.2250738585072014e-308, 1 / 3, math.pi, 1e300, 1e-300, 1.0, 4.0, 0.0,
                   0.81, 1e-320, 2.0, 1e15, 0.1]
+MODES = ('random', 'distinguished', 'tiny', 'huge', 'near_int', 'integers', 'adjacent', 'same_exp')
+LAYOUTS = ('plain', 'col_of_2d', 'row_of_2d', 'step', 'range', 'dataset')
+FILE_NAMES = ['c15-0.xye', 'c15-1.xye', 'c15 two words.dat', 'c15-no-extension', 'c15.v2.txt', 'C15_UPPER.XYE', 'c15-6.xy',
+              'c15-7.xye.bak']
+# (dimension, names of the coordinates 1..4, coordinate unit, data unit)
+NAMINGS = [('x', ('c1', 'c2', 'c3', 'c4'), 'us', 'counts'),
+           ('tof', ('wavelength', 'dspacing', 'two theta', 'Q'), 'ms', 'counts'),
+           ('dspacing', ('tof', 'x', 'y', 'z'), 'angstrom', 'one'),
+           ('two theta', ('a b', 'c', 'position', 'E'), 'rad', None),
+           ('Q', ('x', 'tof', 'q2', 'q3'), None, 'K')]
+# what load_xye is asked for: (dim, coord or None, unit, coord_unit); 'same' = the names / units that were saved
+LOAD_REQS = ['same', 'same', ('row', None, 'counts', 'us'), ('tof', 'time', 'one', 'ms'), ('x', 'x', None, None),
+             ('x', 'y', 'K', 'angstrom'), ('dim with blank', None, 'm', None)]
 
 
 def bits(x: float) -> int:
     return struct.unpack('<q', struct.pack('<d', float(x)))[0]
+
+
+def from_bits(b: int) -> float:
+    return struct.unpack('<d', struct.pack('<q', b))[0]
 
 
 def sym(ch: str) -> int:
@@ -74,197 +107,438 @@ def rand_finite(rng):
             return x
 
 
+def _value_gen(rng, mode, n=1):
+    """-> (generator of X/Y candidates, generator of variance candidates) for one data set."""
+    if mode == 'tiny':       # everything far below any absolute tolerance: subnormals and numbers around 1e-300
+        return (lambda: rng.choice([-1, 1]) * (rng.randrange(1, 2**52) * 5e-324 if rng.random() < 0.5
+                                                else rng.uniform(1, 10) * 10.0 ** rng.randrange(-307, -290)),
+                lambda: rng.randrange(1, 2**40) * 64 * 5e-324 if rng.random() < 0.5
+                else rng.uniform(1, 10) * 10.0 ** rng.randrange(-307, -290))
+    if mode == 'huge':
+        return (lambda: rng.choice([-1, 1]) * rng.uniform(1, 1.7) * 10.0 ** rng.randrange(295, 308),
+                lambda: rng.uniform(1, 1.7) * 10.0 ** rng.randrange(290, 308))
+    if mode == 'near_int':   # a hair beside an integer (inside the default tolerances of allclose / isclose)
+        return (lambda: float(rng.randrange(-10**6, 10**6)) + rng.choice([-1, 1]) * rng.choice([1e-9, 3e-11, 1e-12, 2e-10]) *
+                rng.uniform(0.5, 1),
+                lambda: float(rng.randrange(1, 10**6)) + rng.choice([-1, 1]) * rng.choice([1e-9, 3e-11, 1e-12]) * rng.uniform(0.5, 1))
+    if mode == 'integers':   # channel numbers, counts: integer-valued doubles, also beyond 2^53
+        return (lambda: float(rng.choice([rng.randrange(-50, 50), rng.randrange(-10**6, 10**6), rng.randrange(-2**60, 2**60)])),
+                lambda: float(rng.choice([rng.randrange(0, 2000) * 32, rng.randrange(1, 2**60)])))
+    if mode == 'small_ints':   # what a first user saves: channel numbers and counts, every number exact in single precision
+        return (lambda: float(rng.randrange(0, 4000)), lambda: float(rng.randrange(1, 300) ** 2))
+    if mode == 'adjacent':   # neighbouring doubles: only the last bits differ
+        base = bits(abs(rand_finite(rng))) & ~0xFFFFFF
+        if base > 0x7FE0000000000000:
+            base = 0x3FF0000000000000
+        sign = rng.choice([-1.0, 1.0])
+        vbase = bits(abs(rand_finite(rng))) & ~0xFFFFFFF
+        if vbase > 0x7FE0000000000000:
+            vbase = 0x3FF0000000000000
+        span = max(4096, 64 * n)
+        return (lambda: sign * from_bits(base + rng.randrange(0, span)),
+                lambda: from_bits(vbase + 32 * rng.randrange(0, span)))
+    if mode == 'same_exp':
+        e = rng.randrange(-1000, 1000)
+        return (lambda: rng.choice([-1, 1]) * math.ldexp(rng.uniform(1, 2), e),
+                lambda: math.ldexp(rng.uniform(1, 2), e))
+    return (lambda: rand_finite(rng), lambda: abs(rand_finite(rng)))
+
+
+class DataSet:
+    """The supplied numbers of one data set and the mapping double -> value-id."""
+
+    def __init__(self, rng, n, ncoords, mode):
+        self.n, self.mode = n, mode
+        self.xs, self.ys, self.vs = make_values(rng, n, ncoords, mode)
+        self.yid = {bits(y): 6000000 + i + 1 for i, y in enumerate(self.ys)}
+        self.order = sorted(range(n), key=lambda i: self.vs[i])
+        self.svs = [self.vs[i] for i in self.order]
+
+    def xid(self, coords):
+        out = {}
+        for k, c in enumerate(coords):
+            for i in range(len(self.xs[k])):
+                out[bits(self.xs[k][i])] = (c + 1) * 1000000 + i + 1
+        return out
+
+    def vid(self, v):
+        """id of the supplied variance within 4 ulp of v (at most one, by construction)."""
+        if not math.isfinite(v):
+            return UNKNOWN
+        j = bisect.bisect_left(self.svs, v)
+        for k in (j - 1, j, j + 1):
+            if 0 <= k < self.n and ulp_diff(self.svs[k], v) <= 4:
+                return 7000000 + self.order[k] + 1
+        return UNKNOWN
+
+
 def make_values(rng, n, ncoords, mode):
     """-> xs[c][i], ys[i], vs[i]: X/Y pairwise distinct as bit patterns over the whole data set,
-    variances pairwise > 16 ulp apart (so that '<= 4 ulp' identifies at most one id)."""
+    variances >= 0 and pairwise > 16 ulp apart (so that '<= 4 ulp' identifies at most one id)."""
     seen = set()
 
     def fresh(gen):
-        while True:
+        for _ in range(10000):
             x = gen()
             b = bits(x)
-            if b not in seen:
+            if b not in seen and math.isfinite(x):
                 seen.add(b)
                 return x
+        raise MachineryError(f'could not generate distinct values (mode {mode})')
 
     pool = list(DISTINGUISHED)
     rng.shuffle(pool)
+    gx, gv = _value_gen(rng, mode, n)
+    zeros = [0.0, -0.0] if mode not in ('random', 'distinguished', 'small_ints') else []   # signed zeros belong to every scale
 
     def gen_xy():
         if mode == 'distinguished' and pool:
             return pool.pop()
         if mode == 'distinguished':
             return float(rng.randrange(-10**6, 10**6)) / 8
-        return rand_finite(rng)
+        if zeros and rng.random() < 0.1:
+            return zeros.pop()
+        return gx()
 
     xs = [[fresh(gen_xy) for _ in range(n)] for _ in range(ncoords)]
     ys = [fresh(gen_xy) for _ in range(n)]
-    vs = []
+    vs, sorted_vs = [], []
     vpool = list(DIST_VARIANCES)
     rng.shuffle(vpool)
     tries = 0
     while len(vs) < n:
         tries += 1
+        if tries > 60 * n + 2000:
+            raise MachineryError(f'could not generate separated variances (mode {mode})')
         if mode == 'distinguished' and vpool:
             v = vpool.pop()
         elif mode == 'distinguished':
             v = rng.randrange(1, 10**6) / 16
         else:
-            v = abs(rand_finite(rng))
-        if all(ulp_diff(v, w) > 16 for w in (vs if n <= 64 else vs[-8:])) and (n <= 64 or bits(v) not in seen):
-            seen.add(bits(v))
-            vs.append(v)
-        if tries > 20 * n + 1000:
-            raise MachineryError('could not generate separated variances')
-    if n > 64:   # separation for large n: sort-based check
-        sv = sorted(vs)
-        if any(ulp_diff(a, b) <= 16 for a, b in itertools.pairwise(sv)):
-            return make_values(rng, n, ncoords, mode)
+            v = gv()
+        if not (math.isfinite(v) and v >= 0):
+            continue
+        j = bisect.bisect_left(sorted_vs, v)
+        if any(0 <= k < len(sorted_vs) and ulp_diff(sorted_vs[k], v) <= 16 for k in (j - 1, j)):
+            continue
+        sorted_vs.insert(j, v)
+        vs.append(v)
     return xs, ys, vs
 
 
-def build_da(cfg, xs, ys, vs):
-    """The DataArray the configuration describes ('x' is the dimension)."""
+def coord_name(naming, c):
+    return naming[0] if c == 0 else naming[1][c - 1]
+
+
+def _filler(rng, shape, positive=False):
+    a = np.array([rand_finite(rng) for _ in range(int(np.prod(shape)))]).reshape(shape)
+    return np.abs(a) if positive else a
+
+
+def build_da(cfg, ds: DataSet, naming=NAMINGS[0], layout='plain', rng=None, shuffle_coords=False):
+    """The DataArray the configuration describes (naming[0] is the dimension).  -> (da, parent):
+    parent = the larger object da is a view of (None for 'plain')."""
     n = cfg['nrows']
+    dim, cunit, yunit = naming[0], naming[2], naming[3]
+    xs, ys, vs = ds.xs, ds.ys, ds.vs
+    order = list(enumerate(cfg['coords']))
+    if shuffle_coords and rng is not None:
+        rng.shuffle(order)
     coords = {}
+    parent = None
     if cfg['ndim'] == 1:
-        data = sc.array(dims=['x'], values=np.array(ys), variances=np.array(vs) if cfg['hasvar'] else None, unit='counts')
-        for k, c in enumerate(cfg['coords']):
+        if layout == 'plain' or cfg['edges'] or cfg['masks'] or rng is None:
+            data = sc.array(dims=[dim], values=np.array(ys), variances=np.array(vs) if cfg['hasvar'] else None, unit=yunit)
+            for k, c in order:
+                vals = np.array(xs[k])
+                if c in cfg['edges']:
+                    vals = np.concatenate([vals, [vals[-1] + 1.0 if math.isfinite(vals[-1] + 1.0) and vals[-1] + 1.0 != vals[-1] else 0.5]])
+                coords[coord_name(naming, c)] = sc.array(dims=[dim], values=vals, unit=cunit)
+            da = sc.DataArray(data, coords=coords)
+        elif layout in ('col_of_2d', 'row_of_2d'):
+            m = rng.randrange(2, 4)
+            k0 = rng.randrange(m)
+            shape, dims, idx = ((n, m), [dim, 'z'], (slice(None), k0)) if layout == 'col_of_2d' else ((m, n), ['z', dim], (k0, slice(None)))
+            yy, vv = _filler(rng, shape), _filler(rng, shape, True)
+            yy[idx], vv[idx] = ys, vs
+            for k, c in order:
+                coords[coord_name(naming, c)] = sc.array(dims=[dim], values=np.array(xs[k]), unit=cunit)
+            parent = sc.DataArray(sc.array(dims=dims, values=yy, variances=vv if cfg['hasvar'] else None, unit=yunit), coords=coords)
+            da = parent['z', k0]
+        elif layout in ('step', 'range'):
+            if layout == 'step':
+                o = rng.randrange(2)
+                total, sl = 2 * n - 1 + o, slice(o, None, 2)
+            else:
+                a, b = rng.randrange(0, 4), rng.randrange(0, 4)
+                total, sl = n + a + b, slice(a, a + n)
+            yy, vv = _filler(rng, (total,)), _filler(rng, (total,), True)
+            yy[sl], vv[sl] = ys, vs
+            for k, c in order:
+                cc = _filler(rng, (total,))
+                cc[sl] = xs[k]
+                coords[coord_name(naming, c)] = sc.array(dims=[dim], values=cc, unit=cunit)
+            parent = sc.DataArray(sc.array(dims=[dim], values=yy, variances=vv if cfg['hasvar'] else None, unit=yunit), coords=coords)
+            da = parent[dim, sl]
+        else:   # item of a Dataset
+            for k, c in order:
+                coords[coord_name(naming, c)] = sc.array(dims=[dim], values=np.array(xs[k]), unit=cunit)
+            sig = sc.DataArray(sc.array(dims=[dim], values=np.array(ys), variances=np.array(vs) if cfg['hasvar'] else None, unit=yunit),
+                               coords=coords)
+            parent = sc.Dataset({'other': sc.DataArray(sc.array(dims=[dim], values=_filler(rng, (n,)), unit='m'), coords=coords),
+                                 'signal': sig})
+            da = parent['signal']
+    elif cfg['ndim'] >= 2:
+        # n points along the dimension, the other dimensions have 1 or 2 entries; dims in either order
+        other = [1 if rng is None else rng.choice([1, 1, 2]) for _ in range(cfg['ndim'] - 1)]
+        dims = [dim] + ['z', 'w'][:cfg['ndim'] - 1]
+        shape = [n, *other]
+        tot = int(np.prod(other))
+        yy = np.repeat(np.array(ys), tot).reshape(shape)
+        vv = np.repeat(np.array(vs), tot).reshape(shape)
+        data = sc.array(dims=dims, values=yy, unit=yunit, variances=vv if cfg['hasvar'] else None)
+        if rng is not None and rng.random() < 0.5:
+            data = data.transpose(dims[::-1]).copy()
+        for k, c in order:
             vals = np.array(xs[k])
             if c in cfg['edges']:
-                vals = np.concatenate([vals, [vals[-1] + 1.0 if math.isfinite(vals[-1] + 1.0) and vals[-1] + 1.0 != vals[-1] else 0.5]])
-            coords[COORD_NAMES[c]] = sc.array(dims=['x'], values=vals, unit='us')
-    elif cfg['ndim'] == 2:
-        data = sc.array(dims=['x', 'z'], values=np.array(ys).reshape(n, 1), unit='counts',
-                        variances=np.array(vs).reshape(n, 1) if cfg['hasvar'] else None)
-        for k, c in enumerate(cfg['coords']):
-            coords[COORD_NAMES[c]] = sc.array(dims=['x'], values=np.array(xs[k]), unit='us')
+                vals = np.concatenate([vals, [0.5]])
+            coords[coord_name(naming, c)] = sc.array(dims=[dim], values=vals, unit=cunit)
+        da = sc.DataArray(data, coords=coords)
     else:
-        data = sc.scalar(ys[0], variance=vs[0] if cfg['hasvar'] else None, unit='counts')
-        for k, c in enumerate(cfg['coords']):
-            coords[COORD_NAMES[c]] = sc.scalar(xs[k][0], unit='us')
-    da = sc.DataArray(data, coords=coords)
+        data = sc.scalar(ys[0], variance=vs[0] if cfg['hasvar'] else None, unit=yunit)
+        for k, c in order:
+            coords[coord_name(naming, c)] = sc.scalar(xs[k][0], unit=cunit)
+        da = sc.DataArray(data, coords=coords)
     if cfg['masks']:
-        da.masks['m'] = sc.zeros(dims=da.dims, shape=da.shape, dtype=bool) if da.ndim else sc.scalar(False)
-    return da
-
-
-def one_event(ctx, tid, cfg, header, rng, mode, target, violations_ctx=None):
-    """Run save_xye (+ load_xye) for one configuration and record what happened as value-ids."""
-    from scippneutron.io import xye
-
-    n = cfg['nrows']
-    xs, ys, vs = make_values(rng, n, len(cfg['coords']), mode)
-    da = build_da(cfg, xs, ys, vs)
-    snapshot = da.copy()
-    kw = {}
-    if cfg['arg'] != -1:
-        kw['coord'] = COORD_NAMES[cfg['arg']]
-    if header is not None:
-        kw['header'] = header
-    text, out, exc = None, 'file', None
-    path = ctx.tmp / f'c15-{tid % 4}.xye'
-    try:
-        if target == 'path':
-            xye.save_xye(path, da, **kw)
-            text = path.read_text()
-        elif target == 'str':
-            xye.save_xye(str(path), da, **kw)
-            text = path.read_text()
-        elif target == 'file':
-            with open(path, 'w') as f:
-                xye.save_xye(f, da, **kw)
-            text = path.read_text()
+        if da.ndim:
+            mv = np.zeros(da.shape, dtype=bool)
+            if rng is not None and rng.random() < 0.5:
+                mv.flat[rng.randrange(mv.size)] = True       # masks with and without a set element
+            da.masks['m'] = sc.array(dims=da.dims, values=mv)
         else:
-            buf = io.StringIO()
-            xye.save_xye(buf, da, **kw)
-            text = buf.getvalue()
-    except Exception as e:  # noqa: BLE001   any exception is a refusal; TLC decides whether refusing was right
-        out, exc = 'raised', f'{type(e).__name__}: {e}'[:200]
-    if not sc.identical(da, snapshot):
-        ctx.violation('save_xye modified its input', {'cfg': cfg})
-    # ---- map numbers to ids
-    xid = {}
-    for k, c in enumerate(cfg['coords']):
-        for i in range(len(xs[k])):
-            xid[bits(xs[k][i])] = (c + 1) * 1000000 + i + 1
-    yid = {bits(y): 6000000 + i + 1 for i, y in enumerate(ys)}
-    order = sorted(range(n), key=lambda i: vs[i])
-    svs = [vs[i] for i in order]
+            da.masks['m'] = sc.scalar(rng is not None and rng.random() < 0.5)
+    return da, parent
 
-    def vid(v):
-        """id of the supplied variance within 4 ulp of v (at most one, by construction)."""
-        if not math.isfinite(v):
-            return UNKNOWN
-        import bisect
-        j = bisect.bisect_left(svs, v)
-        for k in (j - 1, j, j + 1):
-            if 0 <= k < n and ulp_diff(svs[k], v) <= 4:
-                return 7000000 + order[k] + 1
-        return UNKNOWN
 
-    lines = []
-    if text is not None:
-        raw = text.split('\n')
-        if raw and raw[-1] == '':
-            raw.pop()
-        for ln in raw:
-            if ln.lstrip(' ').startswith('#') or not ln.strip(' '):
-                lines.append([sym(c) for c in ln])
-                continue
-            fields = ln.split(' ')
-            syms = []
-            for q, f in enumerate(fields):
-                if q:
-                    syms.append(CSP)
-                try:
-                    val = float(f)
-                except ValueError:
-                    syms += [sym(c) for c in f]
-                    continue
-                if q == 0:
-                    syms.append(xid.get(bits(val), UNKNOWN))
-                elif q == 1:
-                    syms.append(yid.get(bits(val), UNKNOWN))
-                else:
-                    sq = val * val
-                    syms.append(vid(sq) if q == 2 else UNKNOWN)
-            lines.append(syms)
+def fingerprint(obj):
+    """Bit-level content of a DataArray / Dataset (sc.identical does not see -0.0 vs 0.0)."""
+    if obj is None:
+        return None
+    if isinstance(obj, sc.Dataset):
+        return tuple((k, fingerprint(obj[k])) for k in obj)
+
+    def var(v):
+        return (tuple(v.dims), tuple(v.shape), str(v.unit), np.ascontiguousarray(v.values).tobytes(),
+                None if v.variances is None else np.ascontiguousarray(v.variances).tobytes())
+
+    return (var(obj.data), tuple((k, var(obj.coords[k])) for k in obj.coords), tuple((k, var(obj.masks[k])) for k in obj.masks))
+
+
+def _unit_str(u):
+    return '<none>' if u is None else str(sc.Unit(u) if not isinstance(u, sc.Unit) else u)
+
+
+def observe_loaded(res, ds: DataSet, xid):
+    """-> (loaded record for TLC, got names / units)."""
+    got = {'dim': '?', 'cname': '?', 'unit': '?', 'cunit': '?'}
     loaded = {'ok': False, 'rows': []}
-    lexc = None
-    if text is not None:
+    if not isinstance(res, sc.DataArray):
+        return loaded, got
+    names = list(res.coords)
+    got['dim'] = res.dims[0] if res.ndim == 1 else f'?{res.ndim} dimensions'
+    got['cname'] = names[0] if len(names) == 1 else f'?{len(names)} coordinates'
+    got['unit'] = _unit_str(res.unit)
+    if len(names) != 1 or res.ndim != 1 or res.masks:
+        return loaded, got
+    cv = res.coords[names[0]]
+    got['cunit'] = _unit_str(cv.unit)
+    lx, ly, lv = cv.values, res.values, res.variances
+    if lv is None or cv.ndim != 1 or not (len(lx) == len(ly) == len(lv)) or cv.variances is not None:
+        return loaded, got
+    if lx.dtype != np.float64 or ly.dtype != np.float64 or lv.dtype != np.float64:
+        loaded = {'ok': True, 'rows': [[UNKNOWN, UNKNOWN, UNKNOWN] for _ in range(len(lx))]}     # not "bit-for-bit"
+        return loaded, got
+    loaded = {'ok': True, 'rows': [[xid.get(bits(lx[i]), UNKNOWN), ds.yid.get(bits(ly[i]), UNKNOWN), ds.vid(float(lv[i]))]
+                                   for i in range(len(lx))]}
+    return loaded, got
+
+
+class Runner:
+    """Executes save / load calls against the real module and records them as events."""
+
+    def __init__(self, ctx):
+        self.ctx = ctx
+        self.events, self.metas = [], {}
+        self.tid = 0
+        self.paths = [None] + [ctx.tmp / name for name in FILE_NAMES]
+        self.held = {}        # path slot -> (tid of the save, DataSet, xid, cfg)   harness-side bookkeeping
+
+    def _req(self, req, naming):
+        if req == 'same':
+            req = (naming[0], None, naming[3], naming[2])
+        dim, cname, unit, cunit = req
+        kw = {'dim': dim, 'unit': unit, 'coord_unit': cunit}
+        if cname is not None:
+            kw['coord'] = cname
+        return kw, {'dim': dim, 'cname': cname or '', 'unit': _unit_str(unit), 'cunit': _unit_str(cunit)}
+
+    def save(self, cfg, header, ds: DataSet, *, naming=NAMINGS[0], layout='plain', target='buffer', slot=0, req='same',
+             load_via='default', rng=None, shuffle_coords=False, da_parent=None, phase='main', orig=None):
+        from scippneutron.io import xye
+
+        ctx, tid = self.ctx, self.tid
+        self.tid += 1
+        n = cfg['nrows']
+        da, parent = da_parent if da_parent is not None else build_da(cfg, ds, naming, layout, rng, shuffle_coords)
+        before, pbefore = fingerprint(da), fingerprint(parent)
+        kw = {}
+        if cfg['arg'] != -1:
+            kw['coord'] = coord_name(naming, cfg['arg'])
+        if header is not None:
+            kw['header'] = header
+        text, out, exc = None, 'file', None
+        if target == 'buffer':
+            slot = 0
+        path = self.paths[slot] if slot else None
         try:
-            if target in ('path', 'str', 'file'):
-                res = xye.load_xye(path if target != 'str' else str(path), dim='x', unit='counts', coord_unit='us')
+            if target == 'path':
+                xye.save_xye(path, da, **kw)
+                text = path.read_text()
+            elif target == 'str':
+                xye.save_xye(str(path), da, **kw)
+                text = path.read_text()
+            elif target == 'file':
+                with open(path, 'w') as f:
+                    xye.save_xye(f, da, **kw)
+                text = path.read_text()
             else:
-                res = xye.load_xye(io.StringIO(text), dim='x', unit='counts', coord_unit='us')
-            lx, ly, lv = res.coords['x'].values, res.values, res.variances
-            if res.ndim == 1 and lv is not None and len(lx) == len(ly) == len(lv):
-                loaded = {'ok': True, 'rows': [[xid.get(bits(lx[i]), UNKNOWN), yid.get(bits(ly[i]), UNKNOWN), vid(float(lv[i]))]
-                                              for i in range(len(lx))]}
+                buf = io.StringIO()
+                xye.save_xye(buf, da, **kw)
+                text = buf.getvalue()
+        except Exception as e:  # noqa: BLE001   any exception is a refusal; TLC decides whether refusing was right
+            out, exc = 'raised', f'{type(e).__name__}: {e}'[:200]
+        if fingerprint(da) != before or fingerprint(parent) != pbefore:
+            ctx.violation('save_xye modified its input' + ('' if fingerprint(da) != before else ' (the object the data is a view of)'),
+                          {'cfg': cfg, 'layout': layout})
+        xid = ds.xid(cfg['coords'])
+        lines = []
+        if text is not None:
+            raw = text.split('\n')
+            if raw and raw[-1] == '':
+                raw.pop()
+            for ln in raw:
+                if ln.lstrip(' ').startswith('#') or not ln.strip(' '):
+                    lines.append([sym(c) for c in ln])
+                    continue
+                fields = ln.split(' ')
+                syms = []
+                for q, f in enumerate(fields):
+                    if q:
+                        syms.append(CSP)
+                    try:
+                        val = float(f)
+                    except ValueError:
+                        syms += [sym(c) for c in f]
+                        continue
+                    if q == 0:
+                        syms.append(xid.get(bits(val), UNKNOWN))
+                    elif q == 1:
+                        syms.append(ds.yid.get(bits(val), UNKNOWN))
+                    else:
+                        syms.append(ds.vid(val * val) if q == 2 else UNKNOWN)
+                lines.append(syms)
+        loaded, lexc = {'ok': False, 'rows': []}, None
+        lkw, reqrec = self._req(req, naming)
+        got = {'dim': '?', 'cname': '?', 'unit': '?', 'cunit': '?'}
+        if text is not None:
+            try:
+                if path is None:
+                    res = xye.load_xye(io.StringIO(text), **lkw)
+                elif load_via == 'handle':
+                    with open(path) as f:
+                        res = xye.load_xye(f, **lkw)
+                elif target == 'str' or load_via == 'str':
+                    res = xye.load_xye(str(path), **lkw)
+                else:
+                    res = xye.load_xye(path, **lkw)
+                loaded, got = observe_loaded(res, ds, xid)
+            except Exception as e:  # noqa: BLE001
+                lexc = f'{type(e).__name__}: {e}'[:200]
+        ev = {'op': 'save', 'tid': tid, 'cfg': {**cfg, 'header': header_syms(header)}, 'path': slot, 'ds': -1, 'out': out,
+              'lines': lines, 'loaded': loaded, 'req': reqrec, 'got': got if loaded['ok'] else ExpectedMetaPy(reqrec)}
+        meta = {'op': 'save', 'cfg': cfg, 'header': header, 'mode': ds.mode, 'target': target, 'layout': layout, 'naming': naming[0],
+                'file': path.name if path else None, 'exc': exc, 'load_exc': lexc, 'req': reqrec, 'got': got, 'phase': phase,
+                'orig': orig, 'text': None if text is None else text[:400]}
+        self.events.append(ev)
+        self.metas[tid] = meta
+        if slot:
+            if out == 'file' and py_decide(cfg) == 'write':
+                self.held[slot] = (tid, ds, xid, cfg)
+            else:
+                self.held.pop(slot, None)
+        nt = None
+        if py_decide(cfg) == 'refuse':
+            nt = ('r', cfg['hasvar'], cfg['ndim'], cfg['masks'], tuple(cfg['coords']), cfg['arg'], tuple(cfg['edges']), n)
+        elif out == 'file' and (header or ds.mode != 'distinguished'):
+            nt = ('w', tid)
+        ctx.case(nontrivial_id=nt)
+        return tid, (da, parent)
+
+    def load(self, slot, *, req, via='path', phase='main'):
+        """A later load of a path slot that holds a data set (harness bookkeeping; TLC keeps its own)."""
+        from scippneutron.io import xye
+
+        if slot not in self.held:
+            return None
+        tid = self.tid
+        self.tid += 1
+        stid, ds, xid, cfg = self.held[slot]
+        path = self.paths[slot]
+        lkw, reqrec = self._req(req, NAMINGS[0])
+        loaded, got, lexc = {'ok': False, 'rows': []}, None, None
+        try:
+            if via == 'handle':
+                with open(path) as f:
+                    res = xye.load_xye(f, **lkw)
+            else:
+                res = xye.load_xye(str(path) if via == 'str' else path, **lkw)
+            loaded, got = observe_loaded(res, ds, xid)
         except Exception as e:  # noqa: BLE001
             lexc = f'{type(e).__name__}: {e}'[:200]
-    ev = {'tid': tid, 'cfg': {**cfg, 'header': header_syms(header)}, 'generated': header is None, 'out': out,
-          'lines': lines, 'loaded': loaded}
-    meta = {'cfg': cfg, 'header': header, 'mode': mode, 'target': target, 'exc': exc, 'load_exc': lexc,
-            'text': None if text is None else text[:400]}
-    return ev, meta
+        ev = {'op': 'load', 'tid': tid, 'cfg': {**cfg, 'header': [-1]}, 'path': slot, 'ds': stid, 'out': 'file', 'lines': [],
+              'loaded': loaded, 'req': reqrec, 'got': got if loaded['ok'] else ExpectedMetaPy(reqrec)}
+        self.events.append(ev)
+        self.metas[tid] = {'op': 'load', 'cfg': cfg, 'header': None, 'mode': ds.mode, 'target': via, 'layout': None, 'naming': None,
+                           'file': path.name, 'exc': None, 'load_exc': lexc, 'req': reqrec, 'got': got, 'phase': phase, 'orig': None,
+                           'text': None, 'saved_by': stid}
+        self.ctx.case(nontrivial_id=('l', tid))
+        return tid
+
+
+def ExpectedMetaPy(req):
+    """Place holder for the names / units of an event whose load failed (the failure itself is the verdict)."""
+    return {'dim': req['dim'], 'cname': req['cname'] or req['dim'], 'unit': req['unit'], 'cunit': req['cunit']}
 
 
 def table_cfgs():
-    """The TableCfgs of Xye.tla."""
+    """The TableCfgs of Xye.tla (a scalar has no points along a dimension: nrows = 1 only)."""
     subsets = [list(s) for r in range(6) for s in itertools.combinations(range(5), r)]
-    for hv in (False, True):
-        for nd in (0, 1, 2):
-            for m in (False, True):
-                for cs in subsets:
-                    for a in (-1, 0, 1, 4):
-                        for es in ([], [0], [1], [0, 1, 2, 3, 4]):
-                            yield {'hasvar': hv, 'ndim': nd, 'masks': m, 'coords': cs, 'arg': a, 'edges': es, 'nrows': 1}
+    for n in (1, 2):
+        for hv in (False, True):
+            for nd in (0, 1, 2, 3):
+                for m in (False, True):
+                    for cs in subsets:
+                        for a in (-1, 0, 1, 4):
+                            for es in ([], [0], [1], [0, 1, 2, 3, 4]):
+                                if nd == 0 and n > 1:
+                                    continue
+                                yield {'hasvar': hv, 'ndim': nd, 'masks': m, 'coords': cs, 'arg': a, 'edges': es, 'nrows': n}
 
 
 def py_decide(cfg):
-    """Only used for the evidence counts (non-trivial cases); verdicts come from TLC."""
+    """Used for the evidence counts and for the harness-side bookkeeping of what a path holds (TLC keeps
+    its own store and rejects an event whose bookkeeping differs); verdicts come from TLC."""
     if not cfg['hasvar'] or cfg['ndim'] != 1 or cfg['masks'] or not cfg['coords']:
         return 'refuse'
     if cfg['arg'] != -1:
@@ -282,7 +556,7 @@ _PRINTABLE = [chr(c) for c in range(32, 127)] + ['\n', '\r']
 
 
 def rand_header(rng):
-    k = rng.randrange(7)
+    k = rng.randrange(9)
     if k == 0:
         return ''.join(rng.choice(_PRINTABLE) for _ in range(rng.randrange(0, 60)))
     if k == 1:   # lines that look like table rows
@@ -296,49 +570,90 @@ def rand_header(rng):
         return None
     if k == 5:
         return '\n'.join(''.join(rng.choice(_PRINTABLE[:95]) for _ in range(rng.randrange(0, 30))) for _ in range(rng.randrange(1, 6)))
+    if k == 6:   # TAB-separated column titles, rows of numbers separated by TABs
+        return rng.choice(['x\ty\te', '1\t2\t3', 'a\n\t1 2 3', '\t', 'tof\t[us]\n1.5\t2.5\t3.5\n'])
+    if k == 7:   # long: many lines / one very long line
+        if rng.random() < 0.5:
+            return '\n'.join(f'{i} {i + 1} {i + 2}' for i in range(rng.randrange(40, 150)))
+        return ' '.join(str(rng.randrange(1000)) for _ in range(rng.randrange(200, 1500)))
     return 'run 1234\ntemperature 3.5 K\n1.0 2.0 3.0'
+
+
+def _writable_cfg(rng, n):
+    ncoords = rng.randrange(1, 6)
+    cs = sorted(rng.sample(range(5), ncoords))
+    if 0 in cs or ncoords == 1:
+        a = rng.choice([-1, -1, rng.choice(cs)])
+    else:
+        a = rng.choice(cs)
+    return {'hasvar': True, 'ndim': 1, 'masks': False, 'coords': cs, 'arg': a, 'edges': [], 'nrows': n}
 
 
 def run(ctx):
     ctx.rule = RULE
-    ctx.assume('headers are printable ASCII + LF + CR (no other control characters); CR counts as a line break (universal newlines); any exception of save_xye counts as refusal')
+    ctx.assume('headers are printable ASCII + TAB + LF + CR (no other control characters); CR counts as a line break (universal newlines); any exception of save_xye counts as refusal')
     ctx.assume('"a few units in the last place" = 4 ulp of the supplied variance (DESIGN 3.2); supplied variances are '
                'finite, >= 0 and pairwise more than 16 ulp apart, X / Y values pairwise distinct bit patterns, so the '
                'mapping double -> value-id is unambiguous')
     ctx.assume('a requested coordinate that does not exist must be refused (exception) as well')
+    ctx.assume('all values, variances and coordinates are float64 (the quantifier); integer or float32 inputs, coordinates '
+               'with variances, 0-d coordinates next to 1-d ones and coordinate names with line breaks are not generated')
+    ctx.assume('the loaded DataArray carries the dimension name, coordinate name and units that load_xye was asked for '
+               '(docstring of load_xye): "returns the chosen coordinate and the data values" is read for scipp objects, '
+               'i.e. values together with the unit the caller named')
     th = ctx.thorough
     nw = int(os.environ.get('VERIF_TLC_WORKERS', '16'))
     rng = ctx.rng
 
-    # ---- 1. design
-    res = ctx.tlc('textio/Xye.tla', 'MC_Xye_thorough.cfg' if th else 'MC_Xye.cfg', workers=nw, timeout=900)
-    require_ok(ctx, res, 'Xye model')
-    ctx.tlc('textio/Xye.tla', 'Neg_Xye_header.cfg', expect_error=True, workers=4, timeout=300)
-    ctx.tlc('textio/Xye.tla', 'Neg_Xye_lossy.cfg', expect_error=True, workers=4, timeout=300)
-    ctx.tlc('textio/Xye.tla', 'Neg_Xye_cr.cfg', expect_error=True, workers=4, timeout=300)
+    # ---- 1. design (the model runs are started now and joined before the verdicts)
+    model_runs = [('textio/Xye.tla', 'MC_Xye_thorough.cfg' if th else 'MC_Xye.cfg', False, max(2, nw // 2)),
+                  ('textio/XyeStore.tla', 'MC_XyeStore_thorough.cfg' if th else 'MC_XyeStore.cfg', False, 2),
+                  ('textio/Xye.tla', 'Neg_Xye_header.cfg', True, 2), ('textio/Xye.tla', 'Neg_Xye_lossy.cfg', True, 2),
+                  ('textio/Xye.tla', 'Neg_Xye_cr.cfg', True, 2), ('textio/XyeStore.tla', 'Neg_XyeStore_cache.cfg', True, 1),
+                  ('textio/XyeStore.tla', 'Neg_XyeStore_append.cfg', True, 1)]
+    model_results, model_errors = {}, []
+
+    def model_worker(i):
+        mod, cfg, neg, w = model_runs[i]
+        try:
+            model_results[i] = ctx.tlc(mod, cfg, workers=w, timeout=900, expect_error=neg, count=False)
+        except Exception as e:  # noqa: BLE001
+            model_errors.append(e)
+
+    model_threads = []
+    for i in range(len(model_runs)):
+        t = threading.Thread(target=model_worker, args=(i,))
+        t.start()
+        model_threads.append(t)
+        time.sleep(0.05)
 
     # ---- 2. conformance
-    events, metas = [], {}
-    tid = 0
+    t_start = time.time()
+    R = Runner(ctx)
     targets = ('buffer', 'path', 'str', 'file')
+    replayable = []      # (kwargs of R.save incl. the DataSet, tid) of cases small enough to be run again at the end
 
-    def add(cfg, header, mode, target):
-        nonlocal tid
-        ev, meta = one_event(ctx, tid, cfg, header, rng, mode, target)
-        events.append(ev)
-        metas[tid] = meta
-        nt = None
-        if py_decide(cfg) == 'refuse':
-            nt = ('r', cfg['hasvar'], cfg['ndim'], cfg['masks'], tuple(cfg['coords']), cfg['arg'], tuple(cfg['edges']))
-        elif ev['out'] == 'file' and (header or mode != 'distinguished'):
-            nt = ('w', tid)
-        ctx.case(nontrivial_id=nt)
-        tid += 1
+    def add(cfg, header, mode, target, *, slot=None, keep=True, **kw):
+        ds = DataSet(rng, cfg['nrows'], len(cfg['coords']), mode)
+        if slot is None:
+            slot = 1 + R.tid % 4
+        tid, _ = R.save(cfg, header, ds, target=target, slot=slot, rng=rng, **kw)
+        if keep and cfg['nrows'] <= 300:
+            replayable.append((dict(cfg=cfg, header=header, ds=ds, target=target, slot=slot, **kw), tid))
+        return tid
 
-    # (a) the decision table of the model
+    # (0) the first uses of the module in this process are benign ones (integers that single precision holds exactly,
+    #     default header, one coordinate): whatever the module keeps from its first caller must not leak into later calls
+    for k in range(4):
+        add({'hasvar': True, 'ndim': 1, 'masks': False, 'coords': [0], 'arg': -1, 'edges': [], 'nrows': 3 + k}, None if k % 2 == 0 else 'counts',
+            'small_ints', targets[(k + 1) % 4], slot=1 + k)
+    # (a) the decision table of the model (quick: 0..2 dimensions with one point completely, an eighth of the
+    #     configurations with three dimensions or two points, seeded)
     for i, cfg in enumerate(table_cfgs()):
-        add(cfg, None, 'distinguished', targets[i % 4])
-    ntable = tid
+        if not th and (cfg['ndim'] == 3 or cfg['nrows'] == 2) and rng.random() >= 0.125:
+            continue
+        add(cfg, None, 'distinguished', targets[i % 4], naming=NAMINGS[i % 5 if i % 3 == 0 else 0], shuffle_coords=i % 2 == 1)
+    ntable = R.tid
     # (b) every header of the model x 1..MaxRows rows x writable coordinate choices
     maxh = 4 if th else 3
     hdrs = [''.join(p) for k in range(maxh + 1) for p in itertools.product('a#\n 7\r', repeat=k)] + [None]
@@ -349,47 +664,114 @@ def run(ctx):
                 continue     # quick: half of the (header, rows) grid, every header with >= 1 row count
             cs, a = shapes[(hi + n) % 3]
             add({'hasvar': True, 'ndim': 1, 'masks': False, 'coords': cs, 'arg': a, 'edges': [], 'nrows': n}, h,
-                'distinguished', targets[(hi + n) % 4])
-    # (c) random data far beyond the model's bounds
+                'distinguished', targets[(hi + n) % 4], load_via=('default', 'handle', 'str')[(hi + n) % 3])
+    ngrid = R.tid
+    # (c) random data far beyond the model's bounds: magnitudes, layouts, names, units, file names, later loads
     sizes = [1, 2, 3, 7, 100, 1000, 10000] * (12 if th else 1) + [10000] * (8 if th else 0)
-    for n in sizes + [rng.randrange(1, 300) for _ in range(3000 if th else 100)]:
-        ncoords = rng.randrange(1, 6)
-        cs = sorted(rng.sample(range(5), ncoords))
-        if 0 in cs or ncoords == 1:
-            a = rng.choice([-1, -1, rng.choice(cs)])
-        else:
-            a = rng.choice(cs)
-        add({'hasvar': True, 'ndim': 1, 'masks': False, 'coords': cs, 'arg': a, 'edges': [], 'nrows': n}, rand_header(rng),
-            rng.choice(['random', 'random', 'distinguished']), rng.choice(targets))
+    for n in sizes + [rng.randrange(1, 300) for _ in range(3000 if th else 130)]:
+        mode = rng.choice(['random', 'random', 'distinguished', *MODES[2:]])
+        add(_writable_cfg(rng, n), rand_header(rng), mode, rng.choice(targets), slot=rng.randrange(1, NPATHS + 1),
+            naming=rng.choice(NAMINGS), layout=rng.choice(LAYOUTS), req=rng.choice(LOAD_REQS),
+            load_via=rng.choice(['default', 'handle', 'str']), shuffle_coords=True)
+        if rng.random() < 0.3:      # later loads of this and of other paths (whatever they hold now)
+            for _ in range(rng.randrange(1, 4)):
+                R.load(rng.randrange(1, NPATHS + 1), req=rng.choice(LOAD_REQS), via=rng.choice(['path', 'str', 'handle']))
+    # (d) the scenarios of XyeStore: a few data sets, a few paths, saves and loads in any order; the same DataArray
+    #     object saved again (to another target) without being rebuilt
+    for _ in range(300 if th else 40):
+        slots = rng.sample(range(1, NPATHS + 1), 2)
+        made = []
+        for _ in range(rng.randrange(4, 9)):
+            if not made or rng.random() < 0.5:
+                if made and rng.random() < 0.3:
+                    kw, dap = rng.choice(made)
+                    R.save(kw['cfg'], kw['header'], kw['ds'], target=rng.choice(targets), slot=rng.choice(slots), naming=kw['naming'],
+                           layout=kw['layout'], req=rng.choice(LOAD_REQS), da_parent=dap, phase='same object saved again')
+                else:
+                    n = rng.choice([1, 2, 3, 5, 17])
+                    kw = dict(cfg=_writable_cfg(rng, n), header=rand_header(rng), ds=None, naming=rng.choice(NAMINGS),
+                              layout=rng.choice(LAYOUTS))
+                    kw['ds'] = DataSet(rng, n, len(kw['cfg']['coords']), rng.choice(MODES))
+                    _, dap = R.save(kw['cfg'], kw['header'], kw['ds'], target=rng.choice(targets[1:]), slot=rng.choice(slots),
+                                    naming=kw['naming'], layout=kw['layout'], req=rng.choice(LOAD_REQS), rng=rng, shuffle_coords=True)
+                    made.append((kw, dap))
+            else:
+                R.load(rng.choice(slots), req=rng.choice(LOAD_REQS), via=rng.choice(['path', 'str', 'handle']))
+    nmain = R.tid
+    # (e) a sample of all cases again, in another order (HARDENING item 6): same configuration, same numbers
+    sample = rng.sample(replayable, min(len(replayable), 2000 if th else 260))
+    rng.shuffle(sample)
+    for kw, otid in sample:
+        R.save(kw.pop('cfg'), kw.pop('header'), kw.pop('ds'), rng=rng, phase='replayed in another order', orig=otid, **kw)
+    events, metas = R.events, R.metas
     ctx.extra['table_configurations'] = ntable
-    ctx.extra['rows_written'] = sum(e['cfg']['nrows'] for e in events if e['out'] == 'file')
-    for e in (events[5], events[ntable + 7], events[-1]):
+    ctx.extra['later_loads'] = sum(1 for e in events if e['op'] == 'load')
+    ctx.extra['replayed_in_another_order'] = R.tid - nmain
+    ctx.extra['rows_written'] = sum(e['cfg']['nrows'] for e in events if e['op'] == 'save' and e['out'] == 'file')
+    for e in (events[5], events[ntable + 7], events[ngrid + 3], events[-1]):
         ctx.sample({k: (v if k != 'lines' else v[:4]) for k, v in e.items() if k != 'loaded'} |
                    {'loaded_rows': e['loaded']['rows'][:3]})
 
+    ctx.extra['seconds_recording'] = round(time.time() - t_start, 1)
+    # ---- join the model runs
+    for t in model_threads:
+        t.join()
+    if model_errors:
+        raise model_errors[0] if isinstance(model_errors[0], MachineryError) else MachineryError(repr(model_errors[0]))
+    for i, (mod, cfg, neg, _) in enumerate(model_runs):
+        if not neg:
+            r = model_results[i]
+            require_ok(ctx, r, f'{mod} / {cfg}')
+            ctx.states += r.generated
+            ctx.distinct_states += r.distinct
+            ctx.transitions += max(r.generated - 1, 0)
+
+    ctx.extra['seconds_until_models_done'] = round(time.time() - t_start, 1)
     tf = ctx.tmp / 'c15.ndjson'
     write_ndjson(tf, events)
-    tr = ctx.tlc('textio/Trace_Xye.tla', workers=1, env={'TRACE_FILE': str(tf)}, timeout=1500)
+    if os.environ.get('VERIF_KEEP_TRACE'):      # debugging aid: keep a copy of the recorded executions
+        write_ndjson(os.environ['VERIF_KEEP_TRACE'], events)
+    tr = ctx.tlc('textio/Trace_Xye.tla', workers=1, env={'TRACE_FILE': str(tf), '_JAVA_OPTIONS': '-Xss64m'}, timeout=1500)
     require_ok(ctx, tr, 'Trace_Xye')
     done = tr.tagged('DONE')
     if not done or done[0][1] != len(events):
         raise MachineryError(f'trace validation incomplete: {done} vs {len(events)} events')
     ctx.traces(len(events))
-    for rej in tr.tagged('REJECT'):
+    rejects = tr.tagged('REJECT')
+    if len(rejects) != done[0][2]:
+        raise MachineryError(f'{done[0][2]} rejected events but {len(rejects)} REJECT lines parsed')
+    rejected = {r[2] for r in rejects}
+    for rej in rejects:
         _, _line, rtid, clause, kind = rej
         m = metas[rtid]
         cfg = m['cfg']
+        ev = events[rtid]
+        if clause == 'harness_bookkeeping_differs_from_the_model':
+            raise MachineryError(f'event {rtid}: the harness and Trace_Xye disagree about what path {ev["path"]} holds')
         if clause == 'written_instead_of_refused':
             key = f'save_xye wrote a file for data that must be refused ({kind})'
+            if cfg['nrows'] > 1 and kind == 'not_one_dimensional':
+                key += ' with more than one point along the dimension'
         elif clause == 'representable_data_refused':
             key = f'save_xye raised {m["exc"].split(":")[0]} for representable data ({len(cfg["coords"])} coordinate(s), ' \
                   f'coord argument {"given" if cfg["arg"] != -1 else "omitted"})'
+        elif clause in ('loaded_names_or_units_differ', 'later_load_names_or_units_differ'):
+            want = ExpectedMetaPy(m['req'])
+            what = next((txt for f, txt in (('dim', 'dimension name'), ('cname', 'coordinate name'), ('unit', 'unit of the data'),
+                                            ('cunit', 'unit of the coordinate')) if (m['got'] or {}).get(f) != want[f]), '?')
+            key = f'load_xye: the returned DataArray does not have the requested {what}'
+            m['wanted'] = want
+        elif clause in ('later_load_failed', 'later_load_differs'):
+            nrows_got = len(ev['loaded']['rows'])
+            how = ('load_xye failed' if clause == 'later_load_failed' else
+                   'another number of rows than the last save to this path wrote' if nrows_got != cfg['nrows'] else
+                   'other numbers than the last save to this path wrote')
+            key = f'later load of a path that was saved to before: {how}'
         else:
             hk = 'generated header' if m['header'] is None else 'empty header' if m['header'] == '' else \
                  'header containing CR' if '\r' in m['header'] else \
                  'multi-line header' if '\n' in m['header'] else 'single-line header'
             nr = '1 row' if cfg['nrows'] == 1 else 'several rows'
-            ev = events[rtid]
             if clause in ('table_cells', 'loaded_data_differs'):
                 # which columns differ, and whether the number is unknown or another supplied value
                 n = cfg['nrows']
@@ -413,9 +795,13 @@ def run(ctx):
                 key = f'load_xye failed on a file written by save_xye ({nr}): {(m["load_exc"] or "wrong shape").split(":")[0]}'
             else:
                 key = f'{clause} ({hk}, {nr})'
-        ctx.violation(key, {'cfg': cfg, 'header': m['header'], 'target': m['target'], 'exc': m['exc'], 'load_exc': m['load_exc'],
-                            'text': m['text'], 'columns': m.get('columns')})
+        if m['phase'] != 'main' and not (m['orig'] is not None and m['orig'] in rejected):
+            # the same case was accepted when it ran first (or has no first run): the history matters
+            key += f' [{m["phase"]}]'
+        ctx.violation(key, {k: m.get(k) for k in ('cfg', 'header', 'mode', 'target', 'layout', 'naming', 'file', 'exc', 'load_exc', 'req',
+                                                  'got', 'wanted', 'phase', 'text', 'columns')})
 
+    ctx.extra['seconds_own_part'] = round(time.time() - t_start, 1)
     # ---------------------------------------------------------------- growth (hosted here for its time budget): metadata models, the
     # Beamline/Source -> probe/device table of with_beamline, the audit_conform schema loop
     # (spec/metadata/Growth_*.tla; deviations are GROWTH-FINDINGs, not violations of C15)
@@ -425,14 +811,18 @@ def run(ctx):
 
 META = {
     'design_ref': 'DESIGN.md §5 C15',
-    'technique': 'TLA+ specification of the XYE writer/reader and its refusal table, model-checked by TLC; recorded '
-                 'executions of the real save_xye/load_xye (numbers as value-ids) judged event-by-event by TLC',
+    'technique': 'TLA+ specification of the XYE writer/reader, its refusal table and the files of several paths over time, '
+                 'model-checked by TLC; recorded executions of the real save_xye/load_xye (numbers as value-ids) judged '
+                 'event-by-event by TLC',
     'text': 'TLC proves that the refusal table is total and exclusive, that nothing is written for data the format '
-            'cannot carry and that Load(Save(d)) = d for every header over {a,#,LF,SP,digit} up to length 4 and 1..4 rows. '
+            'cannot carry, that Load(Save(d)) = d for every header over {a,#,LF,SP,digit,CR} up to length 4 and 1..4 rows and '
+            'that a load returns what the last save to its path wrote, whatever happened before. '
             'The real save_xye/load_xye are replayed on the whole table, on every header of the model and on random '
-            'finite bit patterns up to 10^4 rows with path and file-object targets; X and Y must come back bit-for-bit, '
-            'variances within 4 ulp, and the written text must have the specified line structure.',
+            'finite bit patterns and uniformly tiny / huge / nearly-integer columns up to 10^4 rows, supplied contiguous and '
+            'as strided views, with path and file-object targets, later loads and a replay in another order; X and Y must '
+            'come back bit-for-bit, variances within 4 ulp, the written text must have the specified line structure and the '
+            'loaded DataArray the requested names and units.',
     'note': 'Trusted: TLC, numpy float parsing of the harness, scipp. ulp distances and bit equality are computed by the '
-            'harness (value-ids); structure, commenting of header lines, choice of coordinate, refusals and equality of '
-            'id tables are decided by TLC.',
+            'harness (value-ids); structure, commenting of header lines, choice of coordinate, refusals, equality of '
+            'id tables, names / units and the content of the paths over time are decided by TLC.',
 }
